@@ -85,7 +85,44 @@ def check_loop(transforms=''):
         b.close()
 
 
+def check_loop_custom_fields():
+    """discover -> append -> discover with transforms that read and rewrite custom columns: classification transforms the captures once; the suggestion has to be
+    built from the description the rules saw, not from transforms applied a second time to already transformed fields"""
+    b = Budget()
+    try:
+        b.write('data/card.csv', 'Date,Description,Memo,Amount\n01/10/2025,CARD PAYMENT,REF77/BLUE BOTTLE/OAKLAND,12.00\n01/11/2025,CARD PMT,REF78/TARTINE/SF,9.00\n01/12/2025,PLAIN,x/y/z,3.00\n')
+        b.write('config/merchants.rules', 'field.memo = split(field.memo, "/", 1)\nfield.description = field.memo if startswith("CARD") else field.description\n\n'
+                                          '[Plain]\nmatch: contains("PLAIN")\ncategory: P\nsubcategory: Q\n')
+        b.settings({'year': 2025, 'merchants_file': 'config/merchants.rules',
+                    'data_sources': [{'name': 'Card', 'file': 'data/card.csv', 'format': '{date:%m/%d/%Y}, {description}, {memo}, {amount}'}]})
+        out, err, code = run_cmd(cmd_discover, config=b.config, settings='settings.yaml', limit=0, format='json')
+        O.case(('loop_fields', 1))
+        try:
+            disc = json.loads(out[out.index('['):])
+        except Exception:
+            O.fail('C19.discover_failed', {'loop_fields': 1}, 'JSON', (out + err)[-200:])
+            return
+        rules = '\n\n'.join(d['suggested_rule'].replace('CATEGORY', 'Cat').replace('SUBCATEGORY', 'Sub') for d in disc)
+        with open(os.path.join(b.config, 'merchants.rules'), 'a') as f:
+            f.write('\n\n' + rules + '\n')
+        out2, err2, code2 = run_cmd(cmd_discover, config=b.config, settings='settings.yaml', limit=0, format='json')
+        O.case(('loop_fields', 2))
+        left = [] if 'No unknown transactions' in out2 else None
+        if left is None:
+            try:
+                left = [d['raw_description'] for d in json.loads(out2[out2.index('['):])]
+            except Exception:
+                left = ['<discover failed: %s>' % (out2 + err2)[-150:]]
+        if left:
+            O.fail('C19.unknown_list_does_not_shrink', {'loop_fields': True, 'suggested': [d['suggested_rule'] for d in disc]}, [], left, 'discover; append suggested rules; discover (transforms on custom columns)')
+    finally:
+        b.close()
+
+
 def main():
+    if O.witness and 'loop_fields' in O.witness:
+        check_loop_custom_fields()
+        O.finish()
     if O.witness:
         if 'description' in O.witness:
             check_desc(O.witness['description'])
@@ -104,6 +141,7 @@ def main():
             for pre in (PREFIXES if L <= 2 else PREFIXES[:1]):
                 for sep in (' ', '  '):
                     check_desc(pre + sep.join(toks))
+    check_loop_custom_fields()
     check_loop()
     check_loop('field.description = regex_replace(field.description, "^PAYPAL \\\\*", "")\n\n')
     check_loop('field.description = regex_replace(regex_replace(field.description, "^DD \\\\*DOORDASH ", ""), "^SQ \\\\*", "SQUARE ")\n\n')
